@@ -205,8 +205,11 @@ class U:
             aw = y.awaited
             if not isinstance(aw, stubs.SAwait):
                 raise Unsupported(f"await on unmodelled value {aw!r} at site {y.site} of {y.fn}")
+            if aw.on_suspend is not None:
+                aw.on_suspend()
             if self.suspend_hook is not None:
                 self.suspend_hook(y)
+            self.c.event("suspend", y.fn, y.site, aw.name)
             opts = ["resume"] + [("raise", e) for e in aw.raises]
             if self.cancel_at_awaits:
                 opts.append(("raise", asyncio.CancelledError))
@@ -218,3 +221,5 @@ class U:
             else:
                 e = opts[d][1]
                 throw = e() if isinstance(e, type) else e
+                if aw.on_raise is not None:
+                    aw.on_raise(throw)
